@@ -300,8 +300,9 @@ impl PhoneticSuggestion {
                         }
                         selected.push_str(suffix);
 
-                        // Save this for future reuse.
-                        selections.insert(string.word().to_string(), selected.to_string());
+                        // Don't store the suffixed selection, it would outlive the selection of its
+                        // base word. And don't let another base + suffix combination get appended.
+                        break;
                     }
                 }
             }
